@@ -2,7 +2,7 @@ SPEC = {
     "id": "C04",
     "level": "exploration",
     "level_text": "Random payloads of every supported service are rendered as nominal waveforms by the library's own generator (_vbi_raw_vbi_image / _vbi_raw_video_image) for sampled configurations - one Teletext system plus any other services of the video standard, sampling rate 13.5-40 MHz (Teletext) or 2x clock-40 MHz (others) incl. the rates where the slicer's integer step changes value, any window that keeps all requested signals inside the line (down to zero margin), all 23 pixel formats, sequential/interlaced, synchronous or not, exactly/generously covering line ranges, strict -1..2, three frames with a remove/re-add history - and decoded by vbi3_raw_decoder_*, vbi_raw_decoder_*/vbi_raw_decode and both single-line bit slicers under ASan+UBSan. The decoded array must equal the transmitted lines exactly (count, ascending ITU-R line numbers or 0, id within the requested set and of the transmitted service, exactly the payload bits, nothing for blank lines, nothing written beyond the count). Held on the configurations produced, not a proof; the configuration space is continuous.",
-    "level_note": "Trusted: the library's waveform generator as transmitter (its signal positions are cross-checked against the oracle's span table in the self-test), the service table in harness/c04_common.h (written from the standards), gcc ASan/UBSan. A line failure that disappears exactly under one named condition (0.6 us more line after the signal, 12 % higher sampling rate when within 6 % of the statement's rate floor, caption service not requested on the shared line) is reported under that quirk's own key, never silently tolerated.",
+    "level_note": "Trusted: the library's waveform generator as transmitter (its signal positions are cross-checked against the oracle's span table in the self-test), the service table in harness/c04_common.h (written from the standards), gcc ASan/UBSan. A line failure that disappears exactly under one named condition (one more sample of line after the signal, 12 % higher sampling rate when within 6 % of the statement's rate floor, caption service not requested on the shared line) is reported under that quirk's own key, never silently tolerated.",
     "technique": "runtime monitoring: transmitter-side round-trip oracle over generated configurations and payloads, four receiver interfaces, ASan/UBSan; named-quirk re-transmission to classify failures",
     "rule": "one case = one configuration (service set, rate, window, pixel format, field layout, line ranges, strictness) x 3 frames with random line subsets and payload classes (random, zeros, ones, alternating, long runs) x 2 raw decoder interfaces + up to 4 single-line slicer calls per frame; signature = (service, slicer function {Y8,YUYV,RGB24,RGBA24,RGB16_LE,RGB16_BE,lowpass}, floor(rate/1 MHz), interlaced, synchronous); trivial = no service line transmitted in any frame",
     "assumptions": [
